@@ -9,7 +9,8 @@ META = dict(
         quick="formats xyz (default and user-defined atom columns), pdb, mol2, sdf, poscar (lower-triangular cell), cube "
               "(grids 1x1x1, 2x3x4, 1x1x7), fcidump (n=1,2; 8-fold symmetric non-zero integrals); 1-3 atoms fully symbolic "
               "and boundary sizes (100, 1000, 10000/12000 atoms where a counter fills its column) with two symbolic probe "
-              "atoms and concrete filler; element pairs from {1,8},{2,118},{10,11},{99,100},{6,17}; optional attributes "
+              "atoms and concrete filler; element pairs from {1,8},{2,118},{10,11},{99,100},{6,17} (one job per "
+              "topology format with every element 1..118); optional attributes "
               "absent / all present; bonds incl. one touching the last atom, each bond type; one field per record may "
               "fill its column (width-class fork, budget 1); titles present/absent; "
               "fchk (2 atoms, d+s shells; six kinds of atomic charges, masses, gradient, Hessian, dipole, quadrupole, "
@@ -53,6 +54,12 @@ def jobs(tier, prop="C02", M="harness.rt"):
                     out.append(job(prop, f"roundtrip[{fmt},{variant},n={n},{policy}]", M, "h_roundtrip",
                                    dict(fmt=fmt, natom=n, variant=variant, prop=prop, policy=policy),
                                    budget_s=400 if tier == "quick" else 3000, max_validate=4 if n < 100 else 1))
+    if prop == "C02":
+        # the element tables of iodata.periodic: every element through every topology format that writes symbols
+        for fmt, var in (("xyz", "default"), ("pdb", "default"), ("mol2", "default"), ("sdf", "default"), ("poscar", "lower"), ("cube", "111")):
+            out.append(job(prop, f"roundtrip[{fmt},{var},every-element]", M, "h_roundtrip",
+                           dict(fmt=fmt, natom=2, variant=var + "+elements", prop=prop, policy="fit"), budget_s=400, max_validate=4,
+                           max_paths=400))
     out.append(job(prop, "roundtrip[twin]", M, "h_roundtrip", dict(fmt="xyz", natom=1, prop=prop, twin=True),
                    expect="cex", max_validate=0))
     return out
